@@ -172,4 +172,69 @@ example : runTraced { allTrue with nodeCatchesBase := false, pipeCatchesBase := 
 /-- a per-node handler that swallows: later nodes run and the run "succeeds" -/
 example : (runTraced { allTrue with nodeReraises := false } { nodes := [some .exception, none] }).raised = none := by decide
 
+/-! ## The condition `good` is not stricter than the property
+
+`trace_wellformed` shows that a good shape suffices.  The converse: five small fault plans (`witnessPlans`) tell every
+other shape apart from the documented stream, so ten of the eleven flags are *necessary* — a shape that fails
+`good10` has a concrete plan on which the emitted stream, the exception or the closed flag is wrong (that plan is the
+replay the check looks for on the real code).  The eleventh flag, `startBeforeConstruct`, is unobservable in this model
+while construction is protected (`start_flag_unobservable`); the translator still extracts it and `good` demands it,
+because the real stream would then open with a record other than `pipeline_start`, which the correspondence run sees. -/
+
+def witnessPlans : List Plan :=
+  [ { construct := some .exception, nodes := [none] },
+    { construct := some .base, nodes := [] },
+    { nodes := [none] },
+    { nodes := [some .exception, none] },
+    { nodes := [some .base, none] } ]
+
+def LifecycleShape.good10 (sh : LifecycleShape) : Bool :=
+  sh.constructProtected && sh.nodeCatchesBase && sh.pipeCatchesBase && sh.serOnSuccess
+    && sh.serOnError && sh.nodeReraises && sh.pipeReraises && sh.endOkAfterLoop && sh.endErrInHandler && sh.closeInFinally
+
+def agreesOn (sh : LifecycleShape) (ps : List Plan) : Bool := ps.all fun p => decide (runTraced sh p = expected p)
+
+theorem good_necessary_table : ∀ a b c d e f g h i j k : Bool,
+    agreesOn ⟨a, b, c, d, e, f, g, h, i, j, k⟩ witnessPlans = true → LifecycleShape.good10 ⟨a, b, c, d, e, f, g, h, i, j, k⟩ = true := by
+  decide +kernel
+
+theorem good_necessary (sh : LifecycleShape) (h : ∀ p ∈ witnessPlans, runTraced sh p = expected p) : sh.good10 = true := by
+  obtain ⟨a, b, c, d, e, f, g, i, j, k, l⟩ := sh
+  apply good_necessary_table
+  simp only [agreesOn, List.all_eq_true, decide_eq_true_eq]
+  exact h
+
+theorem loop_indep (sh : LifecycleShape) (v : Bool) (ns : List (Option ExcClass)) (i : Nat) :
+    loop { sh with startBeforeConstruct := v } ns i = loop sh ns i := by
+  induction ns generalizing i with
+  | nil => rfl
+  | cons n ns ih =>
+    cases n with
+    | none => simp only [loop, ih]
+    | some c => simp only [loop, ih]
+
+theorem start_flag_unobservable (sh : LifecycleShape) (hp : sh.constructProtected = true) (v : Bool) (p : Plan) :
+    runTraced { sh with startBeforeConstruct := v } p = runTraced sh p := by
+  obtain ⟨a, b, c, d, e, f, g, i, j, k, l⟩ := sh
+  simp only at hp
+  subst hp
+  have hl := loop_indep ⟨a, true, c, d, e, f, g, i, j, k, l⟩ v p.nodes 0
+  simp only at hl
+  simp only [runTraced, protectedBody, if_true, hl]
+
+theorem trace_wellformed_iff (sh : LifecycleShape) : (∀ p, runTraced sh p = expected p) ↔ sh.good10 = true := by
+  constructor
+  · intro h; exact good_necessary sh (fun p _ => h p)
+  · intro h p
+    have hp : sh.constructProtected = true := by
+      simp only [LifecycleShape.good10, Bool.and_eq_true] at h; exact h.1.1.1.1.1.1.1.1.1
+    rw [← start_flag_unobservable sh hp true p]
+    apply trace_wellformed
+    simp only [LifecycleShape.good10, Bool.and_eq_true] at h
+    simp [LifecycleShape.good, h]
+
+/-- the witness plans separate a concrete bad shape -/
+example : agreesOn { allTrue with closeInFinally := false } witnessPlans = false := by decide
+example : agreesOn allTrue witnessPlans = true := by decide
+
 end SemantivaModel.Trace
